@@ -116,12 +116,24 @@ def st_case(draw, max_len=25):
     addrs = draw(st.lists(st.sampled_from(ADDRS), min_size=narr, max_size=narr, unique=True))
     if draw(st.integers(0, 3)) > 0:
         addrs = sorted(set(addrs) | set(ADDRS[:4]), key=ADDRS.index)
+    sizes = {}
     for a in addrs:
-        prefix.append(["array", [draw(st.sampled_from(SIZE_CONST * 4 + IDX_CONST)), {"addr": a}]])
+        sizes[a] = draw(st.sampled_from(SIZE_CONST * 4 + IDX_CONST))
+        prefix.append(["array", [sizes[a], {"addr": a}]])
     nsub = draw(st.integers(1, 4))
+    # "return, then declare again": a later subroutine starts by re-declaring an array the host already received
+    # (same size register = same length, or another one), without returning it again
+    again = draw(st.integers(0, 2)) if nsub >= 2 else 0
+    again_at = draw(st.integers(1, nsub - 1)) if again else None
+    again_addr = draw(st.sampled_from(addrs)) if again else None
     subs = []
     for k in range(nsub):
         body = draw(st.lists(st_body_instr(), min_size=1 if k else 3, max_size=max_len))
+        if again and k == again_at - 1:
+            body = body + [["store", [draw(st_src), {"addr": again_addr, "idx": draw(st.sampled_from(IDX_CONST))}]], ["ret_arr", [{"addr": again_addr}]]]
+        if again and k == again_at:
+            size = sizes[again_addr] if again == 1 else draw(st.sampled_from(SIZE_CONST + IDX_CONST))
+            body = [["array", [size, {"addr": again_addr}]]] + body
         if k == 0:
             # jump targets never land inside the prefix (it only runs once, so registers stay write-before-read
             # and arrays are declared once)
@@ -221,6 +233,9 @@ def check(case) -> Dict[str, Any]:
                     info["negmod"] = True
             if mn == "array" and ops[1]["addr"] in state.arrays:
                 info["redeclared"] = True  # `array` installs a fresh, all-undefined array (what the executor documents in code)
+                a_ = ops[1]["addr"]
+                if a_ in state.shared_arrays and any(v is not None for v in state.shared_arrays[a_]) and state.regs.get(ops[0]) is not None:
+                    info["redeclared_after_return"] = "same-length" if state.regs[ops[0]] == len(state.shared_arrays[a_]) else "other-length"
             steps += 1
             info["executed"] = info.get("executed", 0) + 1
             try:
@@ -298,6 +313,8 @@ def shard(ctx: Ctx) -> None:
         stt.labels["executed-instructions-total"] += info["executed"]
         if info.get("redeclared"):
             labels.append("array-redeclared")
+        if info.get("redeclared_after_return"):
+            labels.append("array-redeclared-after-ret_arr:" + info["redeclared_after_return"])
         labels += [f"subs:{len(case['subs'])}"] + (["step-bound"] if info["bound"] else []) + (["negmod"] if info["negmod"] else [])
         small = sum(len(s) for s in case["subs"]) <= 24
         stt.case(case, nt, labels, sample=case if small else None)
